@@ -131,9 +131,14 @@ def draw_case(case, ch: Choices):
             for s in specs:
                 if s.get("fault") == "cancel":
                     s["fault"] = None
+                if s["via"] == "custom_query":
+                    # (the builder's query() takes no per-call headers, so such a request cannot be counted for its caller)
+                    s["via"] = "ping"
+                    s.pop("rich", None)
     cfg["lat_profile"] = ch.draw("cfg.latp", 3)
     cfg["preempt_den"] = ch.pick("cfg.pden", [1, 1, 3, 9])
     cfg["debug_logging"] = ch.chance("cfg.debug_logging", 1, 5)
+    cfg["second_client"] = ncallers >= 2 and ch.chance("cfg.second_client", 1, 4)
     return cfg
 
 
@@ -145,7 +150,7 @@ def sched_knobs(cfg):
     return {"lat": lambda ch, label: prof[ch.draw("net." + label, len(prof))],
             "start": lambda ch, ci: [0.0, 0.0, 0.5, 5.0][ch.draw("sched.start", 4)],
             "preempt_den": cfg["preempt_den"], "budget": 7200.0, "shared_headers": cfg.get("shared_headers", False),
-            "debug_logging": cfg.get("debug_logging", False)}
+            "debug_logging": cfg.get("debug_logging", False), "second_client": cfg.get("second_client", False)}
 
 
 def _nonce_faults(callers):
@@ -166,7 +171,55 @@ def wire_filename(fn: str) -> str:
     return fn.replace("\\", "\\\\").replace('"', "%22")
 
 
+def check_custom_request(rec: hw.CallRec, cap, V):
+    """The document built by the custom operation builder for the rich expression of httpworld.custom_fields_for: valid for the
+    fixture schema, every `first` argument bound - through a variable declared once - to the value given at that position."""
+    from graphql import build_schema, parse, validate
+    tag = "caller%d.call%d(custom_query)" % (rec.caller, rec.k)
+    try:
+        body = json.loads(cap.body)
+        doc = parse(body["query"])
+    except Exception as e:  # noqa
+        V("custom-document", "%s: the request is not a JSON body with a parseable document: %r" % (tag, e))
+        return
+    variables = body.get("variables") or {}
+    global _FX_SCHEMA
+    if _FX_SCHEMA is None:
+        _FX_SCHEMA = build_schema(fixture.SCHEMA)
+    errs = validate(_FX_SCHEMA, doc)
+    if errs:
+        V("custom-document", "%s: graphql-core rejects the document: %s\n%s" % (tag, "; ".join(sorted({e_.message for e_ in errs}))[:500], body["query"][:600]))
+        return
+    op = [d_ for d_ in doc.definitions if d_.kind == "operation_definition"][0]
+    declared = [v_.variable.name.value for v_ in op.variable_definitions or ()]
+    if len(declared) != len(set(declared)):
+        V("custom-document", "%s: a variable is declared twice: %s" % (tag, declared))
+    got: Dict[str, Any] = {}
+
+    def walk(sel, path):
+        for f_ in (sel.selections if sel else []):
+            if f_.kind != "field":
+                continue
+            p_ = path + [f_.name.value]
+            for a_ in f_.arguments or ():
+                if a_.name.value == "first":
+                    got["/".join(p_)] = variables.get(a_.value.name.value) if a_.value.kind == "variable" else "<literal>"
+            walk(f_.selection_set, p_)
+    walk(op.selection_set, [])
+    a, b, c, d = hw.custom_numbers(rec)
+    want = {"items": a, "items/related": b, "items/related/related": c, "item/related": d}
+    if got != want:
+        V("custom-variables", "%s: `first` arguments arrive as %r, the expression gave %r\n%s  variables=%r" % (tag, got, want, body["query"][:500], variables))
+
+
+_FX_SCHEMA = None
+
+
 def check_request(rec: hw.CallRec, cap, own_transport, V):
+    if rec.spec["via"] == "custom_query":
+        if rec.spec.get("rich"):
+            check_custom_request(rec, cap, V)
+        return
     tag = "caller%d.call%d(%s)" % (rec.caller, rec.k, rec.spec["via"])
     q, op, variables, objs = rec.inputs
     import copy as _copy
